@@ -23,7 +23,8 @@
 (*   ph[d]           phase of reader_all / writer_all / reader_some /      *)
 (*                   writer_some: try (about to call readv/writev) ->      *)
 (*                   armed (on_readable/on_writeable) -> rdy (readiness    *)
-(*                   dispatched, callable queued) | cxl (cancel dispatched)*)
+(*                   dispatched, callable queued) | cxl (queued with an    *)
+(*                   error: cancel() or a hang-up seen by the reactor)     *)
 (*                   -> try ... -> posted | fin -> handler                 *)
 (*   The event loop is abstracted to what C17 (Loop.tla) guarantees: a     *)
 (*   queued callable runs exactly once, later.                             *)
@@ -84,7 +85,7 @@ NoEmptyChunk(b) == \A i \in 1..Len(b) : b[i].s > 0
 
 (***************************** world ***************************************)
 NoOp == [active |-> FALSE, id |-> 0, kind |-> "none", sync |-> FALSE, buf0 |-> <<>>, data |-> <<>>,
-         moved |-> <<>>, cx |-> FALSE, lastOut |-> "none"]
+         moved |-> <<>>, cx |-> FALSE, lastOut |-> "none", outs |-> {}]
 NoLast == [id |-> 0, d |-> "-", ec |-> "none", n |-> 0, ok |-> TRUE]
 
 WInit ==
@@ -103,7 +104,7 @@ Start(d, id, kind, sync, b, data) ==
     /\ CellSet(b) \cap DOMAIN mem = {}                       \* nor the buffer of the operation in the other direction
     /\ d = "w" => Len(data) = Total(b)
     /\ op' = [op EXCEPT ![d] = [active |-> TRUE, id |-> id, kind |-> kind, sync |-> sync, buf0 |-> b, data |-> data,
-                                moved |-> <<>>, cx |-> FALSE, lastOut |-> "none"]]
+                                moved |-> <<>>, cx |-> FALSE, lastOut |-> "none", outs |-> {}]]
     /\ mem' = LET cs == Cells(b) IN
               [c \in DOMAIN mem \cup CellSet(b) |->
                   IF c \in DOMAIN mem THEN mem[c]
@@ -118,7 +119,7 @@ SysRead(iov, k) ==
        /\ \A i \in 1..k : cs[i] \in DOMAIN mem              \* never outside the buffers of the operations in progress
        /\ inq' = Drop(inq, k)
        /\ mem' = [c \in DOMAIN mem |-> LET I == {i \in 1..k : cs[i] = c} IN IF I = {} THEN mem[c] ELSE bytes[Max(I)]]
-       /\ op' = [op EXCEPT !["r"].moved = @ \o bytes, !["r"].lastOut = "xfer"]
+       /\ op' = [op EXCEPT !["r"].moved = @ \o bytes, !["r"].lastOut = "xfer", !["r"].outs = @ \cup {"xfer"}]
 
 (* writev on S moved the content of the first k cells of iov into the pipe *)
 SysWrite(iov, k) ==
@@ -128,12 +129,12 @@ SysWrite(iov, k) ==
        /\ k >= 1 /\ k <= Len(cs)
        /\ \A i \in 1..k : cs[i] \in DOMAIN mem
        /\ outq' = outq \o bytes
-       /\ op' = [op EXCEPT !["w"].moved = @ \o bytes, !["w"].lastOut = "xfer"]
+       /\ op' = [op EXCEPT !["w"].moved = @ \o bytes, !["w"].lastOut = "xfer", !["w"].outs = @ \cup {"xfer"}]
 
 (* the call moved nothing: would-block, end of stream (return value 0), another error *)
 SysFail(d, out) ==
     /\ op[d].active
-    /\ op' = [op EXCEPT ![d].lastOut = out]
+    /\ op' = [op EXCEPT ![d].lastOut = out, ![d].outs = @ \cup {out}]
 
 (* properties (a)-(d) for the completion (ec, n) of the operation in direction d *)
 DoneOK(d, ec, n) ==
@@ -143,15 +144,14 @@ DoneOK(d, ec, n) ==
        /\ n = Len(o.moved) /\ n <= tot                                           \* the count is the number of bytes moved
        /\ IF d = "r" THEN Content(o.buf0) = o.moved \o Fill(tot - n)             \* next n bytes of the stream, in order, chunk by chunk, nothing else touched
                      ELSE o.moved = SubSeq(o.data, 1, n)                          \* exactly the first n bytes of the buffer went out, once, in order
-       /\ ec \in {"ok", "eof", "aborted", "wb", "err"}
+       /\ ec \in {"ok", "eof", "aborted", "wb", "err", "sel"}
        /\ ec = "ok" => /\ o.kind = "all" => n = tot                              \* success of a full-transfer operation: everything
                        /\ (o.kind = "some" /\ tot > 0) => n >= 1                 \* of a *_some operation: at least one byte
-                       /\ tot > 0 => o.lastOut = "xfer"
-       /\ ec = "eof" => (tot = 0 \/ o.lastOut = "eof")                           \* an error needs its cause
-       /\ ec = "aborted" => o.cx
-       /\ ec = "wb" => (o.sync /\ o.lastOut = "wb")
-       /\ ec = "err" => (o.lastOut = "err" \/ (o.lastOut = "none" /\ sclosed))
-       /\ (o.kind = "some" /\ ec # "ok") => n = 0
+       /\ ec = "eof" => (tot = 0 \/ "eof" \in o.outs)                            \* an error needs its cause: a call returned 0,
+       /\ ec = "aborted" => o.cx                                                 \* cancel() / close() was called,
+       /\ ec = "wb" => (o.sync /\ o.lastOut = "wb")                              \* a synchronous call on a non-blocking descriptor stopped at EAGAIN,
+       /\ ec = "err" => ("err" \in o.outs \/ (o.outs = {} /\ sclosed))           \* a call failed / the descriptor is closed,
+       /\ ec = "sel" => (~o.sync /\ (inShut \/ outShut \/ sclosed))              \* select_failed: the reactor saw a hang-up / error condition
 
 Complete(d, ec, n) ==
     /\ last' = [id |-> op[d].id, d |-> d, ec |-> ec, n |-> n, ok |-> DoneOK(d, ec, n)]
@@ -235,13 +235,19 @@ Ready(d) ==
     /\ ph' = [ph EXCEPT ![d].st = "rdy"]
     /\ UNCHANGED <<wvars, nid, nin>>
 
+(* the reactor reports a hang-up / error condition (both directions shut down): the callable is queued with select_failed *)
+ReadyErr(d) ==
+    /\ ph[d].st = "armed" /\ inShut /\ outShut
+    /\ ph' = [ph EXCEPT ![d] = [@ EXCEPT !.st = "cxl", !.pec = "sel"]]
+    /\ UNCHANGED <<wvars, nid, nin>>
+
 (* the loop runs the queued callable: operator()(e) *)
 Resume(d) ==
     /\ ~Busy
     /\ \/ /\ ph[d].st = "rdy"
           /\ ph' = [ph EXCEPT ![d] = [@ EXCEPT !.st = "try", !.ctx = "resume"]]
        \/ /\ ph[d].st = "cxl"
-          /\ ph' = [ph EXCEPT ![d] = [@ EXCEPT !.st = "fin", !.ctx = "resume", !.pec = "aborted",
+          /\ ph' = [ph EXCEPT ![d] = [@ EXCEPT !.st = "fin", !.ctx = "resume",
                                                !.pn = IF op[d].kind = "some" \/ BugCancelZero THEN 0 ELSE ph[d].cnt]]
     /\ UNCHANGED <<wvars, nid, nin>>
 
@@ -253,7 +259,7 @@ Invoke(d) ==
     /\ ph' = [ph EXCEPT ![d] = Idle]
     /\ UNCHANGED <<inq, inShut, outq, outShut, sclosed, nid, nin>>
 
-CancelPh == ph' = [d \in Dirs |-> IF ph[d].st = "armed" \/ (FixCancel /\ ph[d].st = "rdy") THEN [ph[d] EXCEPT !.st = "cxl"] ELSE ph[d]]
+CancelPh == ph' = [d \in Dirs |-> IF ph[d].st = "armed" \/ (FixCancel /\ ph[d].st = "rdy") THEN [ph[d] EXCEPT !.st = "cxl", !.pec = "aborted"] ELSE ph[d]]
 
 ICancel ==
     /\ ~Busy /\ \E d \in Dirs : op[d].active
@@ -282,11 +288,12 @@ IPeerShut ==
 
 Next ==
     \/ \E d \in UseDirs, kind \in Kinds, sh \in Shapes : IStart(d, kind, sh)
-    \/ \E d \in Dirs : Attempt(d) \/ Ready(d) \/ Resume(d) \/ Invoke(d)
+    \/ \E d \in Dirs : Attempt(d) \/ Ready(d) \/ ReadyErr(d) \/ Resume(d) \/ Invoke(d)
     \/ ICancel \/ IClose \/ IPeerWrite \/ IPeerRead \/ IPeerShut
 
 Spec == Init /\ [][Next]_vars
-FairSpec == Spec /\ \A d \in Dirs : WF_vars(Attempt(d)) /\ WF_vars(Resume(d)) /\ WF_vars(Invoke(d)) /\ WF_vars(Ready(d))
+(* the loop keeps running: what is queued is run (strong fairness: the thread is busy with the other direction again and again) *)
+FairSpec == Spec /\ \A d \in Dirs : WF_vars(Attempt(d)) /\ SF_vars(Resume(d)) /\ SF_vars(Invoke(d))
 
 (***************************** properties **********************************)
 TypeOK ==
@@ -318,5 +325,6 @@ ASSUME AdvProperty
 (* shape sets for the cfg files (a cfg cannot spell tuples) *)
 ShapesQ == {<<>>, <<2>>, <<1, 2>>}
 ShapesT == {<<>>, <<1>>, <<3>>, <<2, 1>>, <<1, 1, 1>>}
+ShapesL == {<<>>, <<1>>, <<3>>, <<2, 1>>, <<1, 1, 1>>, <<1, 2, 1>>}
 ShapesOne == {<<1, 2>>}
 =============================================================================
